@@ -979,6 +979,7 @@ class Knowledge:
             self.ineqs = []  # linear terms L with L <= 0 known
             self.implied = []  # (guard atom, fact atom): guard => fact
             self.ors = []  # disjunctions not yet resolved
+            self.types = {}  # term -> set of type names (isinstance facts)
         else:
             self.atoms = list(other.atoms)
             self.known = set(other.known)
@@ -986,6 +987,7 @@ class Knowledge:
             self.ineqs = list(other.ineqs)
             self.implied = list(other.implied)
             self.ors = list(other.ors)
+            self.types = dict(other.types)
         self._isets = None
 
     def copy(self):
@@ -1077,6 +1079,14 @@ class Knowledge:
             return
         if op == 'ok':
             self._derive_ok(atom)
+            return
+        if op == 'isinstance':
+            x, names = atom.args
+            if isinstance(x, Sym) and all(isinstance(n, str)
+                                          for n in names):
+                cur = self.types.get(x)
+                new = set(names)
+                self.types[x] = new if cur is None else (cur & new)
             return
         if op in ('lt', 'le', 'gt', 'ge', 'eq', 'ne'):
             a, b = atom.args
@@ -1352,6 +1362,15 @@ class Knowledge:
                     best_lo = -best if best_lo is None else max(best_lo,
                                                                  -best)
         return (best_lo, best_hi)
+
+    def type_of(self, x):
+        """typeof refined by isinstance facts of the path."""
+        t = typeof(x)
+        if t is not None:
+            return t
+        if isinstance(x, Sym):
+            return self.types.get(x)
+        return None
 
     def lower_bound(self, term):
         return self.lin_interval(term)[0]
